@@ -106,7 +106,7 @@ inductive Expr where
   | appendSlice (s t : Expr)
   | copy (dst src : Expr)
   | toIface (t : Ty) (e : Expr)
-  | assert (e : Expr) (t : Ty) (commaOk : Bool)
+  | assert (e : Expr) (t : Ty) (commaOk : Bool) (zero : Expr)     -- zero: the zero value of `t` (comma-ok form)
   | assertI (e : Expr) (iface : Nat) (commaOk : Bool)
   | recover
 deriving Repr, Inhabited
@@ -1009,16 +1009,16 @@ def stepExpr (e : Expr) (env : Env) : M Ret := do
   | .toIface t e => do
     let v ← eval1 e env
     pure (.vals [.iface (some (t, v))])
-  | .assert e t two => do
+  | .assert e t two zero => do
     match ← eval1 e env with
     | .iface (some (t', v)) =>
       if t' = t then commaOk true v v two ""
       else do
-        -- the zero value of T in the comma-ok form is supplied by the generator through `decl`; here a placeholder
-        -- of the right shape is not available, so failed comma-ok assertions yield the `nil`-like value below and the
-        -- generator never reads it (it only reads the flag)
-        commaOk false v (.iface none) two "interface conversion: type assertion failed"
-    | .iface none => commaOk false (.iface none) (.iface none) two "interface conversion: interface is nil"
+        let z ← if two then eval1 zero env else pure (Val.iface none)
+        commaOk false v z two "interface conversion: type assertion failed"
+    | .iface none => do
+      let z ← if two then eval1 zero env else pure (Val.iface none)
+      commaOk false z z two "interface conversion: interface is nil"
     | _ => stuck "assert: interface expected"
   | .assertI e id two => do
     match ← eval1 e env with
